@@ -208,8 +208,8 @@ CLAIMED.update({
         note="partial: 'resume == handler returned the response' for whole runs is decided per generated history by the oracle (the "
              "executor-level statement is proved); interrupts whose upstream-fed input has a default pause early and again (known finding F-f); "
              "an interrupt inside a nested graph cannot be answered (F-n). Every node that may pause - a nested graph holding an interrupt included "
-             "(fix aa302cc) - runs alone in its step: C14_pausing_step_calls_only_the_pausing_node, so the pre-step state returned with a pause "
-             "is everything computed.",
+             "(fix aa302cc) - runs alone in its step: C14_pausing_step_calls_only_the_pausing_node, and only such nodes pause in the model's "
+             "executor at every nesting depth (C14_only_isolated_nodes_pause), so the pre-step state returned with a pause is everything computed.",
         technique="Coq proof (interrupt executor / async isolation / nested pause path) + pause-resume history oracle",
     ),
     "C15": dict(
